@@ -526,7 +526,7 @@ func runC10(c *Ctx) {
 
 func init() {
 	Register(&Monitor{ID: "C10", Run: func(c *Ctx) {
-		c.Rule = "stream histories of 1..8 segments (version marker, replacing table with 0..2 imports and declared max_id absent/=/</>, appending table, locals with gaps and duplicates) x 6 catalog variants (nil, empty, exact, newer only, older only, all in shuffled order; one table family with versions 2, 9, 10, 100 so that the latest version is the numerically largest) rendered in binary (symbol ids) and text ($n, $ion_1_0), with user values referencing ids at every region boundary (last system id, first/last of each import, first/last local, max id, max id + 1 must fail). Oracle: an independent evolution of the symbol context; resolved symbol/field/annotation text, Reader.SymbolTable() (MaxID and per-id text) after every user value, table structs never surfacing, import errors. Non-trivial: >= 2 context changes and >= 1 symbol resolved after the last; distinct by rendered document."
+		c.Rule = "stream histories of 1..8 segments (version marker, replacing table with 0..2 imports - one time in twelve 30..41, with tables the catalog lacks late in the list and an appending table next - and declared max_id absent/=/</>, appending table, locals with gaps and duplicates) x 6 catalog variants (nil, empty, exact, newer only, older only, all in shuffled order; one table family with versions 2, 9, 10, 100 so that the latest version is the numerically largest) rendered in binary (symbol ids) and text ($n, $ion_1_0), with user values referencing ids at every region boundary (last system id, first/last of each import, first/last local, max id, max id + 1 must fail). Oracle: an independent evolution of the symbol context; resolved symbol/field/annotation text, Reader.SymbolTable() (MaxID and per-id text) after every user value, table structs never surfacing, import errors. Also streams of small structs whose field names change ids from table to table (replaced, reordered, appended, after a version marker), decoded by one Decoder into a struct type, a map and untyped. Non-trivial: >= 2 context changes and >= 1 symbol resolved after the last; distinct by rendered document."
 		c.Assume("gap slots and duplicate imports/symbols fields are outside the strict oracle (they are C06 robustness inputs)")
 		runC10(c)
 	}, Replay: func(c *Ctx, v *Violation) string {
